@@ -581,3 +581,101 @@ MUTANTS += [
 
         bool found_one = false;""", """        bool found_one = false;""")]),
 ]
+MUTANTS += [
+ dict(name='c01-benign-bool-local-guard', prop='C01', benign=True, expect='',
+      edits=[('src/bls12_381/pairing.cpp', """        for (size_t j = 0; j != num_affine_pairs; j++) {
+            AffinePair& pair = affine_pairs[j];
+            if (!pair.g1->is_zero() && !pair.g2->is_zero()) {
+                miller_doubling_step(coeffs, pair.r);
+                ell(result, coeffs, *pair.g1);
+            }
+        }
+        for (size_t j = 0; j != num_prepared_pairs; j++) {
+            PreparedPair& pair = prepared_pairs[j];
+            if (!pair.g1->is_zero() && !pair.g2->is_zero()) {
+                ell(result, pair.g2->coeffs[pair.coeff_idx++], *pair.g1);
+            }
+        }
+
+        if constexpr""", """        for (size_t j = 0; j != num_affine_pairs; j++) {
+            AffinePair& pair = affine_pairs[j];
+            const bool skip = pair.g1->is_zero() || pair.g2->is_zero();
+            if (!skip) {
+                miller_doubling_step(coeffs, pair.r);
+                ell(result, coeffs, *pair.g1);
+            }
+        }
+        for (size_t j = 0; j != num_prepared_pairs; j++) {
+            PreparedPair& pair = prepared_pairs[j];
+            const bool active = !pair.g1->is_zero() && !pair.g2->is_zero();
+            if (active) {
+                ell(result, pair.g2->coeffs[pair.coeff_idx++], *pair.g1);
+            }
+        }
+
+        if constexpr""")]),
+ dict(name='c01-bool-local-guard-wrong-polarity', prop='C01', expect='R-GUARD/G1',
+      edits=[('src/bls12_381/pairing.cpp', """        for (size_t j = 0; j != num_prepared_pairs; j++) {
+            PreparedPair& pair = prepared_pairs[j];
+            if (!pair.g1->is_zero() && !pair.g2->is_zero()) {
+                ell(result, pair.g2->coeffs[pair.coeff_idx++], *pair.g1);
+            }
+        }
+
+        if constexpr""", """        for (size_t j = 0; j != num_prepared_pairs; j++) {
+            PreparedPair& pair = prepared_pairs[j];
+            const bool active = !pair.g1->is_zero() || !pair.g2->is_zero();
+            if (active) {
+                ell(result, pair.g2->coeffs[pair.coeff_idx++], *pair.g1);
+            }
+        }
+
+        if constexpr""")]),
+ dict(name='c11-benign-nested-ifs-keygen', prop='C11', benign=True, expect='',
+      edits=[('src/wkdibe/api.cpp', """            if (k != attrs.length && attrs.attrs[k].idx == i) {
+                if (!attrs.attrs[k].omitFromKeys) {
+                    temp.multiply(params.h[i], attrs.attrs[k].id);
+                    sk.a0.add(sk.a0, temp);
+                }
+                k++;
+            } else if (!attrs.omitAllFromKeysUnlessPresent) {
+                sk.b[j].idx = i;
+                sk.b[j].hexp.multiply(params.h[i], r);
+                j++;
+            }""", """            bool consumed = false;
+            if (k != attrs.length) {
+                if (attrs.attrs[k].idx == i) {
+                    if (!attrs.attrs[k].omitFromKeys) {
+                        temp.multiply(params.h[i], attrs.attrs[k].id);
+                        sk.a0.add(sk.a0, temp);
+                    }
+                    k++;
+                    consumed = true;
+                }
+            }
+            if (!consumed && !attrs.omitAllFromKeysUnlessPresent) {
+                sk.b[j].idx = i;
+                sk.b[j].hexp.multiply(params.h[i], r);
+                j++;
+            }""")]),
+ dict(name='c15-benign-byte-pointer-arithmetic', prop='C15', benign=True, expect='',
+      edits=[('src/wkdibe/marshal.cpp', """            b = reinterpret_cast<FreeSlotMarshalled<compressed>*>(encoded + 1);
+        }
+
+        for (int i = 0; i != this->l; i++) {
+            this->b[i].marshal<compressed>(&b[i]);""", """            b = reinterpret_cast<FreeSlotMarshalled<compressed>*>(reinterpret_cast<uint8_t*>(encoded) + sizeof(*encoded));
+        }
+
+        for (int i = 0; i != this->l; i++) {
+            this->b[i].marshal<compressed>(b + i);""")]),
+ dict(name='c09-benign-reordered-checks', prop='C09', benign=True, expect='',
+      edits=[('src/bls12_381/curve.cpp', """            if (checked && greater) {
+                return false;
+            }
+            g.y.read_big_endian(&this->data[sizeof(typename Affine::BaseFieldType)]);
+            g.infinity = false;""", """            g.y.read_big_endian(&this->data[sizeof(typename Affine::BaseFieldType)]);
+            g.infinity = false;
+            if (greater && checked) {
+                return false;
+            }""")]),
+]
